@@ -73,8 +73,18 @@ impl Prop for C06 {
         if swap_sensitive(&case.call) {
             r.label("swap_sensitive");
         }
-        let (e, buf) = encode_in(&case.env, &case.call, BIG, |i| 0xD0 | (i as u8 & 0x0F));
+        let ((e, buf), (e_again, buf_again)) = encode_twice_in(&case.env, &case.call, BIG, |i| 0xD0 | (i as u8 & 0x0F));
         let Enc::Ok(len) = e else { return r };
+        // the same request encoded again on the same context has the same body
+        // (instance ID 0 every time, nothing consumed)
+        match e_again {
+            Enc::Ok(n2) if n2 == len && buf_again[..len] == buf[..len] => {}
+            Enc::Ok(n2) => {
+                let m = n2.min(len).min(buf.len());
+                r.fail(format!("C06:{}:second_encode_differs", kind), format!("the same request encoded twice in a row on one context: first {} ({} bytes), then {} ({} bytes)", hex(&buf[..len.min(buf.len())]), len, hex(&buf_again[..m]), n2));
+            }
+            other => r.fail(format!("C06:{}:second_encode_differs", kind), format!("the same request encoded twice in a row on one context: first Ok({}), then {:?}", len, other)),
+        }
         if len < 12 || len > buf.len() {
             r.fail(format!("C06:{}:len", kind), format!("a control request of {} bytes cannot hold its headers", len));
             return r;
